@@ -116,7 +116,9 @@ OutsFold(e, outs, a, sw) ==
             IN OutsFold(e, Tail(outs), [edge |-> edge, le |-> le, la |-> la, ms |-> IF o.rst THEN a.ms ELSE Max(a.ms, o.seq + SegLen(o)), ws |-> ws2, rst |-> a.rst \/ o.rst], sw)
 
 PostViol(e, p, now) ==
-  IF (p.st \in NeedTimer \/ (p.sq > 0 /\ p.st \in DataStates)) /\ p.pa = -1 THEN << <<l, "L1", e, p.st, IF p.sq > 0 THEN "data" ELSE "ctl">> >> ELSE <<>>
+  (IF (p.st \in NeedTimer \/ (p.sq > 0 /\ p.st \in DataStates)) /\ p.pa = -1 THEN << <<l, "L1", e, p.st, IF p.sq > 0 THEN "data" ELSE "ctl">> >> ELSE <<>>)
+  \* T2: TIME-WAIT ends by itself -- a socket in TIME-WAIT that asks for no further poll never will
+  \o (IF p.st = "TIME-WAIT" /\ p.pa = -1 THEN << <<l, "T2", e, "no-timer", now>> >> ELSE <<>>)
 
 \* ---- state diagram (C17): is the edge b -> a of endpoint e allowed for this cause?
 \* ev: "rx" with segment g, "egress", "api" with call c.  finInOrder / ackOfFin computed by the caller.
